@@ -368,7 +368,7 @@ func (m *Muxer) closeFragment(isLast bool) error {
 func (m *Muxer) writeRecordPlaylist() {
 	// 找出整个直播流从开始到结束最大的分片时长
 	currFrag := m.getClosedFrag()
-	if currFrag.duration > m.recordMaxFragDuration {
+	if currFrag.duration+0.5 > m.recordMaxFragDuration {
 		m.recordMaxFragDuration = currFrag.duration + 0.5
 	}
 
@@ -418,7 +418,7 @@ func (m *Muxer) writePlaylist(isLast bool) {
 	// 找出时长最长的fragment
 	maxFrag := float64(m.config.FragmentDurationMs) / 1000
 	m.iterateFragsInPlaylist(func(frag *fragmentInfo) {
-		if frag.duration > maxFrag {
+		if frag.duration+0.5 > maxFrag {
 			maxFrag = frag.duration + 0.5
 		}
 	})
